@@ -176,7 +176,9 @@ class Speller:
         """a note's text may be written with extra indentation and blank lines around it"""
         if '\n' in t and self.coin(0.5):
             ind = ' ' * self.rng.choice([2, 4, 6])
-            body = '\n'.join((ind + l) if l.strip() else l for l in t.split('\n'))
+            # an empty line may carry up to the block's indentation in blanks (they are cut with the indentation)
+            body = '\n'.join((ind + l) if l.strip() else (' ' * self.rng.randint(0, len(ind)) if l == '' and self.coin(0.5) else l)
+                             for l in t.split('\n'))
             lead = '\n' * self.rng.choice([1, 2])
             trail = self.rng.choice(['\n', '\n  ', '\n\n'])
             return esc_triple(lead + body + trail)
@@ -290,7 +292,10 @@ class Speller:
         if c['note']:
             st.append(self.kw('note:') + self.sp() + self.string(c['note']))
         if self.hit('unknown_setting'):
-            st.append(self.rng.choice(['bogus', 'auto_increment', 'nullable', 'primary', 'default 5', 'note \'x\'']))
+            pool = ['bogus', 'auto_increment', 'nullable', 'primary', 'default 5', 'note \'x\'']
+            if not spec['allow_properties']:    # property syntax is a syntax error while the option is off
+                pool += ["bogus: 'x'", 'label: "v"', "zz: '''v'''", "owner: 'me'"]
+            st.append(self.rng.choice(pool))
         refs = []
         for r in inline_refs:
             t2 = spec['tables'][r['t2']]
@@ -400,6 +405,8 @@ class Speller:
         if spec['allow_properties']:
             body = self.merge_keep(body, [self.ident(k, force_quote=kw_prefix(k, BODY_KW)) + ':' + self.sp() + self.string(v)
                                           for k, v in t['props']])
+        if not spec['allow_properties'] and self.hit('prop_when_off'):
+            body = self.merge_keep(body, [self.rng.choice(["owner: 'me'", 'label: "v"', "zz: '''v'''"])])
         out = head + '{' + self.nl()
         for b in body:
             out += self.discarded() + self.ind() + b + self.nl()
